@@ -10,12 +10,16 @@ theorem pow_split53 (k : Nat) (hk : k ≤ 52) : 2 ^ 53 = 2 ^ (52 - k + 1) * 2 ^ 
 
 /-- the integer test of `nput` and the conversion back `(double)(int)` are inverse to each other:
     if `x` is the double with integer value `v` then `(double)v` is `x` again (up to the sign of zero) -/
-theorem ofInt_toInt (x : Dbl) (hx : x.Valid) (v : Int) (h : x.toInt? = some v) :
+theorem ofInt_toInt' (x : Dbl) (v : Int) (h : x.toInt? = some v) :
     (Dbl.ofInt v).normZero = x.normZero := by
   obtain ⟨neg, ex, man⟩ := x
-  simp only [Dbl.Valid] at hx
   unfold Dbl.toInt? at h
   simp only at h
+  by_cases hman : man ≥ 2 ^ 52
+  · rw [if_pos hman] at h; simp at h
+  rw [if_neg hman] at h
+  have hx : ex < 2048 ∨ True := Or.inr trivial
+  have hx2 : man < 2 ^ 52 := by omega
   by_cases h0 : ex = 0
   · subst h0
     by_cases hm : man = 0
@@ -69,6 +73,22 @@ theorem ofInt_toInt (x : Dbl) (hx : x.Valid) (v : Int) (h : x.toInt? = some v) :
           rw [hres]
         · rw [if_neg h3] at h; simp at h
 
+theorem ofInt_toInt (x : Dbl) (_hx : x.Valid) (v : Int) (h : x.toInt? = some v) :
+    (Dbl.ofInt v).normZero = x.normZero := ofInt_toInt' x v h
+
+/-- the value `ReadConstant` returns for what binary `nput` wrote, for every `Dbl` whatsoever -/
+theorem numVal_binary_exact' (x : Dbl) (o : Opts) (hb : o.binary = true) :
+    (numVal idCodec o x).normZero = x.normZero := by
+  unfold numVal
+  simp only [hb, if_true]
+  cases ht : x.toInt? with
+  | none => simp [idCodec]
+  | some v =>
+    simp only
+    split
+    · exact ofInt_toInt' x v ht
+    · simp [idCodec]
+
 /-- **`nput` is exact.**  For every (valid, non-NaN is implied) double the value `ReadConstant` returns for what
     `BinaryFormatter::nput` wrote — `s` + int16, `l` + int32 or `n` + 8 bytes — is the double itself up to the sign of zero;
     in particular every integer `-2^31 ≤ v < 2^31` is packed and unpacked exactly. -/
@@ -89,4 +109,14 @@ theorem numVal_text_exact (cd : Codec) (hcd : ∀ x, (cd.rd x).normZero = x.norm
     (numVal cd o x).normZero = x.normZero := by
   simp [numVal, hb, hcd]
 
+end MpVerif.C03
+
+namespace MpVerif.C03
+/-- the 64-bit pattern of a binary64 determines it: what the binary format copies (8 bytes) is the number -/
+theorem ofBits_toBits (x : Dbl) (hx : x.Valid) : Dbl.ofBits x.toBits = x := by
+  obtain ⟨neg, ex, man⟩ := x
+  simp only [Dbl.Valid] at hx
+  obtain ⟨h1, h2⟩ := hx
+  cases neg <;> simp only [Dbl.ofBits, Dbl.toBits, Dbl.mk.injEq, Bool.false_eq_true, if_false, if_true, decide_eq_false_iff_not,
+    decide_eq_true_eq] <;> refine ⟨?_, ?_, ?_⟩ <;> omega
 end MpVerif.C03
